@@ -11,6 +11,7 @@ A4  the constant-multiplication rewrite splits the literal into magnitude and si
 A8  the overflow term of signed multiplication (computed on magnitudes) depends on the sign of the product
 A9  cross-reference: untyped constant sub-expressions are re-typed together with their top node (C05-S13)
 A10 the scanner bound of every suffixed number literal equals max() of its number type (token.rs): two tables that must agree
+A11 every per-type table of constants over the unsigned number types gives usize what it gives u32 (usize has 32 bits)
 A7  cross-reference: the peephole rewrites through which every operator network is built keep the function (C04 O4 / O5 / O7 / O9 / O10)
 """
 from .. import mir
@@ -605,5 +606,51 @@ def rule_a10(ctx):
     return res
 
 
+def rule_a11(ctx):
+    """`usize` has 32 bits in Garble (size_in_bits_for_defs, UnsignedNumType::max).  Every other table over the unsigned number types
+    that yields a number per type (bit counts, shift limits, bounds) has to give usize what it gives u32 - a table written with
+    the host's 64-bit usize in mind lets `x << 40` through for a usize x."""
+    res = RuleResult("A11", "every per-type table of constants treats usize like u32 (sibling agreement with size_in_bits_for_defs)")
+    n = 0
+    for f in ctx.fns.values():
+        if not f.get("mir") or not f["sp"][0].startswith("src/") or f.get("from_expansion"):
+            continue
+        body = ctx.body(f["id"])
+        for b in range(body.n):
+            info = body.switch_info(b)
+            if not info or info[2] != "token::UnsignedNumType":
+                continue
+            t = body.term(b)
+            tg = {}
+            for v, x in t["targets"]:
+                tg[info[1].get(v)] = x
+            for name in info[1].values():
+                tg.setdefault(name, t["otherwise"])
+            vals = {}
+            for name, x in tg.items():
+                cs = []
+                for st in body.blocks[x]["stmts"]:
+                    if st["k"] != "assign":
+                        continue
+                    rv = st["rv"]
+                    if rv["k"] in ("use", "cast") and rv["op"]["k"] == "const" and isinstance(rv["op"].get("val"), int) and not isinstance(rv["op"].get("val"), bool):
+                        cs.append(rv["op"]["val"])
+                    if rv["k"] == "aggregate":
+                        cs += [o["val"] for o in rv["ops"] if o["k"] == "const" and isinstance(o.get("val"), int)]
+                vals[name] = tuple(cs)
+            if not vals.get("Usize") or not vals.get("U32"):
+                continue
+            n += 1
+            if vals["Usize"] == vals["U32"]:
+                res.ok({"function": f["id"], "line": t["sp"][1], "usize": list(vals["Usize"]), "verdict": "same as u32"})
+            else:
+                res.bad(Finding("A11", f["id"], "table gives usize %s and u32 %s" % (list(vals["Usize"]), list(vals["U32"])),
+                                "usize is a 32-bit type, but this per-type table treats it differently from u32%s: e.g. a shift limit of 64 lets `x << 40` return 0 without a panic for a usize x"
+                                % (" (like u64)" if vals["Usize"] == vals.get("U64") else ""), t["sp"]))
+    if n < 2 and not res.findings:
+        raise AnchorMissing("A11: expected at least the tables of size_in_bits_for_defs and UnsignedNumType::max, found %d" % n)
+    return res
+
+
 def run(ctx):
-    return ctx.run_rules([rule_a1, rule_a2, rule_a3, rule_a4, rule_a5, rule_a6, rule_a7, rule_a8, rule_a9, rule_a10])
+    return ctx.run_rules([rule_a1, rule_a2, rule_a3, rule_a4, rule_a5, rule_a6, rule_a7, rule_a8, rule_a9, rule_a10, rule_a11])
